@@ -21,6 +21,8 @@ Vals(s) == [k \in 1..Len(s) |-> VAL(s[k])]
 
 RECURSIVE Flat(_)
 Flat(ss) == IF ss = <<>> THEN <<>> ELSE Head(ss) \o Flat(Tail(ss))
+\* the same for rows of one common length L (linear in the number of rows; used for the long entry lists)
+FlatU(ss, L) == [i \in 1..(Len(ss) * L) |-> ss[((i - 1) \div L) + 1][((i - 1) % L) + 1]]
 
 \* export with 1-based subscripts (base 1); `base` generalises to files with another index base
 ExportMatrix(m) ==      \* m: sequence of rows
@@ -31,7 +33,8 @@ ExportBase(o, base) ==
          <<KW("tensor"), INT(Len(o.shape))>> \o Ints(o.shape) \o Vals(o.v)            \* first index fastest
     [] o.kind = "sparse" ->
          <<KW("sptensor"), INT(Len(o.shape))>> \o Ints(o.shape) \o <<INT(Len(o.subs))>>
-         \o Flat([k \in 1..Len(o.subs) |-> [m \in 1..Len(o.shape) |-> INT(o.subs[k][m] + base)] \o <<VAL(o.vals[k])>>])
+         \o FlatU([k \in 1..Len(o.subs) |-> [m \in 1..Len(o.shape) |-> INT(o.subs[k][m] + base)] \o <<VAL(o.vals[k])>>],
+                  Len(o.shape) + 1)
     [] o.kind = "ktensor" ->
          <<KW("ktensor"), INT(Len(o.U))>> \o Ints([k \in 1..Len(o.U) |-> Len(o.U[k])]) \o <<INT(Len(o.w))>>
          \o Vals(o.w) \o Flat([k \in 1..Len(o.U) |-> ExportMatrix(o.U[k])])
